@@ -20,18 +20,30 @@ IMPORTS = ['Grist.Model.Schedule', 'Grist.Lib.PySched', 'Grist.Model.ScheduleCod
            'GristGen.Schedule_gen']
 
 DEFS = '''
-Definition sym_check (c : list (Z * str) * sym) : bool :=
+(* monomorphic constructors for the cases: cheap to elaborate *)
+Definition CU (n : Z) (u : str) : Z * str := (n, u).
+Record symcase := SY { y_calls : list (Z * str); y_tree : sym }.
+Definition sym_check (c : symcase) : bool :=
   match fold_left (fun acc cu => bind acc (fun d => Delta_add_interval sym_prims d (fst cu) (snd cu)))
-                  (fst c) (Val (Delta_init sym_prims)) with
-  | Val d => sym_eqb (Delta_add_to sym_prims d (SV 0)) (snd c)
+                  (y_calls c) (Val (Delta_init sym_prims)) with
+  | Val d => sym_eqb (Delta_add_to sym_prims d (SV 0)) (y_tree c)
   | Exn _ => false
   end.
-Definition slot_check (c : list str * list (str * option smatchT) * str * str * (Z * Z * Z)) : bool :=
-  let '(parts, sm, s, u, (code, mo, us)) := c in
-  delta_res_eqb (parse_slot (parse_prims parts [] sm) s u) code mo us.
-Definition interval_check (c : list (str * option imatch) * str * (Z * Z * str)) : bool :=
-  let '(im, s, (code, n, u)) := c in
-  interval_res_eqb (parse_interval (parse_prims [] im []) s) code n u.
+Definition GR (k v : str) : str * ostr := (k, Some v).
+Definition SM (p : str) (g : smatchT) : str * option smatchT := (p, Some g).
+Definition SN (p : str) : str * option smatchT := (p, None).
+Record slotcase := SC { c_parts : list str; c_sm : list (str * option smatchT); c_s : str; c_u : str;
+                        c_code : Z; c_mo : Z; c_us : Z }.
+Definition slot_check (c : slotcase) : bool :=
+  delta_res_eqb (parse_slot (parse_prims (c_parts c) [] (c_sm c)) (c_s c) (c_u c)) (c_code c) (c_mo c) (c_us c).
+Definition IM (s num unit : str) : str * option imatch := (s, Some (num, unit)).
+Definition IN (s : str) : str * option imatch := (s, None).
+Record intcase := IC { i_im : list (str * option imatch); i_s : str; i_code : Z; i_n : Z; i_u : str }.
+Definition interval_check (c : intcase) : bool :=
+  interval_res_eqb (parse_interval (parse_prims [] (i_im c) []) (i_s c)) (i_code c) (i_n c) (i_u c).
+Inductive anycase := AY (c : symcase) | AI (c : intcase) | AS (c : slotcase).
+Definition any_check (c : anycase) : bool :=
+  match c with AY c => sym_check c | AI c => interval_check c | AS c => slot_check c end.
 '''
 
 
@@ -108,7 +120,7 @@ def sym_cases(schedule, rng, n):
       res = d.add_to(Sym('T', '(SV 0)'))
       if not (isinstance(res, Sym) and res.kind == 'T'):
         raise core.TieBroken('Delta.add_to on the recording mocks does not give a datetime')
-      out.append('(%s, %s)' % (core.coq_list(['(%s, %s)' % (core.zlit(a), S(u)) for a, u in calls]), res.term))
+      out.append('SY %s %s' % (core.coq_list(['CU %s %s' % (core.zlit(a), S(u)) for a, u in calls]), res.term))
   finally:
     schedule.timedelta, schedule.datetime, schedule.DATEADD = saved
   return out
@@ -131,28 +143,29 @@ def slot_case(schedule, slot_str, unit):
   for p in dict.fromkeys(parts):
     m = schedule._SLOT_RE.match(p)
     if m is None:
-      sm.append('(%s, None)' % S(p))
-    else:
-      sm.append('(%s, Some %s)' % (S(p), core.coq_list(['(%s, %s)' % (S(k), ostr(v)) for k, v in m.groupdict().items() if v is not None])))   # absent groups: None by default
+      sm.append('SN %s' % S(p))
+    else:                         # groups that did not take part are absent from the table: None
+      sm.append('SM %s %s' % (S(p), core.coq_list(['GR %s %s' % (S(k), S(v)) for k, v in m.groupdict().items()
+                                                   if v is not None])))
   try:
     d = schedule._parse_slot(slot_str, unit)
     res = (0, d._months, d._timedelta // datetime.timedelta(microseconds=1))
   except Exception as e:          # pylint: disable=broad-except
     res = (exc_code(e), 0, 0)
-  return '(%s, %s, %s, %s, (%s, %s, %s))' % (core.coq_list([S(p) for p in parts]), core.coq_list(sm), S(slot_str),
-                                             S(unit), core.zlit(res[0]), core.zlit(res[1]), core.zlit(res[2]))
+  return 'SC %s %s %s %s %s %s %s' % (core.coq_list([S(p) for p in parts]), core.coq_list(sm), S(slot_str),
+                                      S(unit), core.zlit(res[0]), core.zlit(res[1]), core.zlit(res[2]))
 
 
 def interval_case(schedule, s):
   low = s.lower()
   m = schedule._INTERVAL_RE.match(low)
-  im = '(%s, %s)' % (S(low), 'None' if m is None else '(Some (%s, %s))' % (S(m.group('num')), S(m.group('unit'))))
+  im = 'IN %s' % S(low) if m is None else 'IM %s %s %s' % (S(low), S(m.group('num')), S(m.group('unit')))
   try:
     n, u = schedule._parse_interval(s)
     res = (0, n, u)
   except Exception as e:          # pylint: disable=broad-except
     res = (exc_code(e), 0, '')
-  return '(%s, %s, (%s, %s, %s))' % (core.coq_list([im]), S(s), core.zlit(res[0]), core.zlit(res[1]), S(res[2]))
+  return 'IC %s %s %s %s %s' % (core.coq_list([im]), S(s), core.zlit(res[0]), core.zlit(res[1]), S(res[2]))
 
 
 def parser_inputs(schedule, rng, specs):
